@@ -82,6 +82,11 @@ func (a Float) M__repr__() (Object, error) {
 // FloatFromString turns a string into a Float
 func FloatFromString(str string) (Object, error) {
 	str = strings.TrimSpace(str)
+	// ParseFloat also reads Go's hexadecimal floats and digit
+	// separators, which are not float() input
+	if strings.ContainsAny(str, "xXpP_") {
+		return nil, ExceptionNewf(ValueError, "could not convert string to float: '%s'", str)
+	}
 	f, err := strconv.ParseFloat(str, 64)
 	if err != nil {
 		if numErr, ok := err.(*strconv.NumError); ok {
@@ -655,7 +660,7 @@ func init() {
 			if err != nil {
 				return nil, err
 			}
-			return NewBool(math.Floor(f) == f), nil
+			return NewBool(!math.IsInf(f, 0) && math.Floor(f) == f), nil
 		}
 		return cantConvert(self, "float")
 	}, 0, "is_integer() -> Return True if the float instance is finite with integral value, and False otherwise.")
